@@ -29,7 +29,7 @@ KERNEL_ATTRS = {'_now', '_queue', '_eid', '_active_proc'}
 
 CANARY = {
     'R1': "def f(s):\n    ready = set()\n    ready.add(s)\n    for x in ready:\n        print(x)\n    y = {1, 2}.pop()\n",
-    'R2': "def f(items):\n    items.sort(key=lambda e: id(e))\n    return min(items, key=hash)\n",
+    'R2': "def f(items, ev, env):\n    items.sort(key=lambda e: id(e))\n    ev.rank = (0, str(env.active_process))\n    items.sort(key=lambda e: e.rank)\n    return min(items, key=hash)\n",
     'R3': "import random, os\nimport numpy as np\ndef f():\n    r = random.Random()\n    return r.random() + np.random.rand() + os.urandom(1)[0]\n",
     'R4': "import time\nimport simpy.rt\ndef f(env):\n    return time.time() - env.now\n",
     'R5': "import heapq\ndef f(env):\n    env._now = 0\n    heapq.heappush(env._queue, (0, 0, 0, None))\n",
@@ -136,15 +136,51 @@ def scan_sets(tree):
 
 
 # ------------------------------------------------------------------------------------------- R2
+ADDRESS_REPR = {'requesting_process', 'active_process', 'resourcename', 'env', '_env', 'process', 'self'}   # objects printed as `<... object at 0x...>`
+TAINTED_ATTRS: set = set()       # attributes that somewhere receive a value derived from id() / hash() / an address-bearing repr (package-wide pre-pass)
+
+
+def _address_object(e) -> bool:
+    """an expression denoting a process / event / environment / store / component object: its str() and repr() contain the memory address"""
+    if isinstance(e, ast.Name):
+        return e.id in ADDRESS_REPR
+    if isinstance(e, ast.Attribute):
+        return e.attr in ADDRESS_REPR
+    if isinstance(e, ast.Call) and isinstance(e.func, ast.Attribute) and e.func.attr in ('process', 'event', 'timeout') and 'env' in ast.unparse(e.func.value):
+        return True
+    return False
+
+
 def identity_calls(n):
     for x in ast.walk(n):
         if isinstance(x, ast.Call) and isinstance(x.func, ast.Name) and x.func.id in ('id', 'hash'):
             yield x
         if isinstance(x, ast.Name) and x.id in ('id', 'hash') and isinstance(x.ctx, ast.Load):
             yield x
+        # str(obj) / repr(obj) / format(obj) / f"{obj}" of an object without a repr of its own: the text contains the address
+        if isinstance(x, ast.Call) and isinstance(x.func, ast.Name) and x.func.id in ('str', 'repr', 'format', 'ascii') and x.args and _address_object(x.args[0]):
+            yield x
+        if isinstance(x, ast.FormattedValue) and _address_object(x.value):
+            yield x
+        if isinstance(x, ast.Attribute) and x.attr in TAINTED_ATTRS and isinstance(x.ctx, ast.Load):
+            yield x
+
+
+def collect_tainted_attrs(trees):
+    """attributes assigned (anywhere in the package) a value derived from id() / hash() / an address-bearing repr: reading them in an ordering
+    sink orders by memory address just as well"""
+    TAINTED_ATTRS.clear()
+    for _ in range(2):
+        for tree in trees:
+            for n in ast.walk(tree):
+                if isinstance(n, (ast.Assign, ast.AnnAssign, ast.AugAssign)) and getattr(n, 'value', None) is not None and any(True for _ in identity_calls(n.value)):
+                    for t in (n.targets if isinstance(n, ast.Assign) else [n.target]):
+                        if isinstance(t, ast.Attribute):
+                            TAINTED_ATTRS.add(t.attr)
 
 
 def scan_identity_order(tree):
+    collect_tainted_attrs([tree])            # per module: the attribute is written and read by the same store / node class
     hits = []
     sites = 0
     parents = {}
@@ -167,7 +203,8 @@ def scan_identity_order(tree):
                 for k in n.keywords:
                     if k.arg == 'key':
                         if any(True for _ in identity_calls(k.value)):
-                            hits.append((n.lineno, f'`{fname}` ordered by id()/hash()'))
+                            via = [x.attr for x in ast.walk(k.value) if isinstance(x, ast.Attribute) and x.attr in TAINTED_ATTRS]
+                            hits.append((n.lineno, f'`{fname}` ordered by id()/hash()' + (f' / an address-bearing repr (through `.{via[0]}`)' if via else '')))
                         if any(isinstance(x, ast.Name) and x.id in tainted for x in ast.walk(k.value)):
                             hits.append((n.lineno, f'`{fname}` ordered by a value derived from id()/hash()'))
                 if fname in ORDER_FUNCS and not n.keywords:
